@@ -5,7 +5,7 @@ use serde_json::json;
 
 use crate::runner::*;
 
-pub const RULE: &str = "(typelevel) a separate crate with Send + Sync obligations for Expression<'static>, Runtime, Variable, Rcvar, Ast, JmespathError and Box<dyn Function> is compiled against the library built with `sync` (a build-time fact, not a generated search); (workload) generated concurrent workloads: <= 12 generated expressions (core, typed functions, by-functions, failing), <= 6 shared documents, 2..16 threads released by a barrier, each with a generated job list and generated yield points, compiled expressions shared by reference and additionally compiled inside the threads; every result must equal the sequential result computed before and again after the run, no panic, documents unchanged; (first-use) fresh child processes whose very first use of the crate is N threads released by a barrier into compile/search (the lazy default runtime); thorough adds the workload under ThreadSanitizer; non-trivial = a workload in which >= 2 threads searched the same compiled expression on the same shared document during overlapping intervals, measured by timestamps (distinct by workload text)";
+pub const RULE: &str = "(typelevel) a separate crate with Send + Sync obligations for Expression<'static>, Runtime, Variable, Rcvar, Ast, JmespathError and Box<dyn Function> is compiled against the library built with `sync` (a build-time fact, not a generated search); (workload) generated concurrent workloads: <= 12 generated expressions (core, typed functions, by-functions, failing), <= 6 shared documents, 2..16 threads released by a barrier, each with a generated job list and generated yield points, compiled expressions shared by reference and additionally compiled inside the threads; every result must equal the sequential result computed before and again after the run, no panic, documents unchanged; (custom-runtime) a runtime built by the case (closures and CustomFunctions with signatures, registered / deregistered around the built-ins) shared by reference, first searches concurrent, results equal to those of an identically built twin; (first-use) fresh child processes whose very first use of the crate is N threads released by a barrier into compile/search (the lazy default runtime); thorough adds the workload under ThreadSanitizer; non-trivial = a workload in which >= 2 threads searched the same compiled expression on the same shared document during overlapping intervals, measured by timestamps (distinct by workload text)";
 
 #[cfg(feature = "sync")]
 mod imp {
